@@ -1,5 +1,5 @@
 from .. import facts
-from ..rules import factors, status, image, algebra, opacity, codec
+from ..rules import factors, status, image, algebra, opacity, codec, geometry
 
 
 def run(ck):
@@ -16,3 +16,4 @@ def run(ck):
     codec.r15_alphaless_fetchers_force_alpha(ck, P, 'C09-R7')   # an alpha-less source reads as opaque for every pixel of the scanline
     codec.r12_simd_helpers(ck, P, 'C09-R8')                     # the widening helpers the fetchers delegate to
     opacity.r9_solid_substitution_excludes_kernels(ck, P)
+    geometry.r14_hull_needs_constant_sign_of_w(ck, P, 'C09-R10')   # COVER_CLIP promotes an alpha-less source to opaque
